@@ -28,6 +28,8 @@ pub fn fix_classes(classes: &mut [Class]) {
             "QTableView" => fix_table_view(cls),
             "QTreeView" => fix_tree_view(cls),
             "QWidget" => fix_widget(cls),
+            // Qt is a namespace, which moc of Qt 5 describes as a class
+            "Qt" => cls.namespace = true,
             _ => {}
         }
     }
